@@ -26,6 +26,7 @@ def check(prog, rep):
 
 SQ = "aw_datastore/storages/sqlite.py"
 VARIANTS = [
+    ("B a flag lets conditional_commit count and return without any test", "aw_datastore/storages/sqlite.py", "        if self.enable_lazy_commit:\n            self.num_uncommitted_statements += num_statements\n", "        if getattr(self, \"hold_commits\", False):\n            self.num_uncommitted_statements += num_statements\n            return\n        if self.enable_lazy_commit:\n            self.num_uncommitted_statements += num_statements\n", "AGE"),
     ("B commit() swallows a failed flush and stamps anyway", SQ, "        self.conn.commit()\n        self.last_commit = datetime.now()", "        try:\n            self.conn.commit()\n        except sqlite3.OperationalError as e:\n            logger.warning(f\"Commit failed: {e}\")\n        self.last_commit = datetime.now()", "AGE-STAMP"),
     ("B operands reversed (original defect)", SQ, "if (datetime.now() - self.last_commit) > timedelta(seconds=10):", "if (self.last_commit - datetime.now()) > timedelta(seconds=10):", "AGE"),
     ("B age test nested under the count test", SQ, "            if self.num_uncommitted_statements > 50:\n                self.commit()\n            if (datetime.now() - self.last_commit) > timedelta(seconds=10):\n                self.commit()", "            if self.num_uncommitted_statements > 50:\n                if (datetime.now() - self.last_commit) > timedelta(seconds=10):\n                    self.commit()", "AGE"),
